@@ -53,6 +53,49 @@ fn any_grammar<const UP: usize>(rule: [u8; UP], len: [usize; UP], r: usize, t: u
     )
 }
 
+/// As `any_grammar`, but whether a slot holds a token or a rule is concrete per instance
+/// (`kinds[i][k]`: b'T' or b'R'); which token / which rule stays symbolic.
+fn any_grammar_kinds<const UP: usize>(
+    rule: [u8; UP],
+    len: [usize; UP],
+    kinds: [[u8; MAXL]; UP],
+    r: usize,
+    t: usize,
+) -> YaccGrammar<u8> {
+    let mut prods = Vec::with_capacity(UP + 1);
+    let mut prods_rules = Vec::with_capacity(UP + 1);
+    let mut i = 0;
+    while i < UP {
+        let mut p = Vec::with_capacity(len[i]);
+        let mut k = 0;
+        while k < len[i] {
+            let v: u8 = kani::any();
+            if kinds[i][k] == b'T' {
+                kani::assume((v as usize) < t - 1);
+                p.push(Symbol::Token(TIdx(v)));
+            } else {
+                kani::assume(v >= 1 && (v as usize) < r);
+                p.push(Symbol::Rule(RIdx(v)));
+            }
+            k += 1;
+        }
+        prods.push(p);
+        prods_rules.push(RIdx(rule[i]));
+        i += 1;
+    }
+    prods.push(vec![Symbol::Rule(RIdx(1))]);
+    prods_rules.push(RIdx(0));
+    YaccGrammar::verif_from_parts(
+        r,
+        t,
+        prods,
+        prods_rules,
+        vec![None; t],
+        vec![None; UP + 1],
+        PIdx(UP as u8),
+    )
+}
+
 /// Copy the grammar's productions into plain arrays through concrete indices (so the oracles do not
 /// re-read the heap through symbolic pointers): per production its rule, its length and its symbols
 /// as (is_rule, index).
@@ -615,6 +658,129 @@ macro_rules! c17_ff {
         }
     };
 }
+
+/// Reference FIRST / nullable by plain in-place iteration of the textbook rules from the empty
+/// assignment, `ROUNDS` rounds over fixed arrays.  Every fact it adds is a consequence of the rules, so
+/// once the result is closed it is the least model; the caller checks closedness ("oracle:" check).
+fn ref_round<const P: usize, const R: usize, const T: usize>(fl: &Flat<P>, n: &mut [bool; R], f: &mut [[bool; T]; R]) {
+    let mut p = 0;
+    while p < P {
+        let a = fl.rule[p];
+        let mut prefix_nullable = true;
+        let mut k = 0;
+        while k < MAXL {
+            if k < fl.len[p] && prefix_nullable {
+                if fl.is_rule[p][k] {
+                    let b = fl.idx[p][k];
+                    let mut t = 0;
+                    while t < T {
+                        if f[b][t] {
+                            f[a][t] = true;
+                        }
+                        t += 1;
+                    }
+                    if !n[b] {
+                        prefix_nullable = false;
+                    }
+                } else {
+                    f[a][fl.idx[p][k]] = true;
+                    prefix_nullable = false;
+                }
+            }
+            k += 1;
+        }
+        if prefix_nullable {
+            n[a] = true;
+        }
+        p += 1;
+    }
+}
+
+/// Five rounds, written out (no loop: the harness-wide unwind bound stays at the minimum the real code needs).
+fn ref_first<const P: usize, const R: usize, const T: usize, const ROUNDS: usize>(
+    fl: &Flat<P>,
+) -> ([bool; R], [[bool; T]; R]) {
+    let mut n = [false; R];
+    let mut f = [[false; T]; R];
+    ref_round::<P, R, T>(fl, &mut n, &mut f);
+    ref_round::<P, R, T>(fl, &mut n, &mut f);
+    ref_round::<P, R, T>(fl, &mut n, &mut f);
+    ref_round::<P, R, T>(fl, &mut n, &mut f);
+    ref_round::<P, R, T>(fl, &mut n, &mut f);
+    (n, f)
+}
+
+/// FOLLOW alone: the real `YaccFollows::new` (which computes FIRST itself) against the Horn system, with
+/// FIRST / nullable taken from the in-harness reference iteration instead of a second symbolic run of
+/// `YaccFirsts::new` -- only for three-rule shapes (2R-1 = 5 rounds reach the least model: two for
+/// nullable, one for the direct tokens, two for chains through the other rules).
+macro_rules! c17_fo {
+    ($follow:ident, $r:expr, $t:expr, $up:expr, $rule:expr, $len:expr, $unwind:expr) => {
+        c17_fo!(@body $follow, $r, $t, $up, $unwind, any_grammar::<{ $up }>($rule, $len, $r, $t));
+    };
+    ($follow:ident, $r:expr, $t:expr, $up:expr, $rule:expr, $len:expr, $kinds:expr, $unwind:expr) => {
+        c17_fo!(@body $follow, $r, $t, $up, $unwind, any_grammar_kinds::<{ $up }>($rule, $len, $kinds, $r, $t));
+    };
+    (@body $follow:ident, $r:expr, $t:expr, $up:expr, $unwind:expr, $mk:expr) => {
+        #[kani::proof]
+        #[kani::unwind($unwind)]
+        pub fn $follow() {
+            const R: usize = $r;
+            const T: usize = $t;
+            const P: usize = $up + 1;
+            let g = $mk;
+            let fl = flatten::<P>(&g);
+            let (n, f) = ref_first::<P, R, T, { 2 * $r - 1 }>(&fl);
+            let w0 = [[false; T]; R];
+            assert!(ff_model::<P, R, T>(&fl, &n, &f, &w0, false), "oracle: reference FIRST / nullable is stable");
+            let fo = g.follows();
+            let mut w = [[false; T]; R];
+            let mut a = 0;
+            while a < R {
+                let mut t = 0;
+                while t < T {
+                    w[a][t] = fo.is_set(RIdx(a as u8), TIdx(t as u8));
+                    t += 1;
+                }
+                a += 1;
+            }
+            assert!(ff_model::<P, R, T>(&fl, &n, &f, &w, true), "FOLLOW: closed under the derivation rules (nothing missing)");
+            let xn: [bool; R] = kani::any();
+            let xf: [[bool; T]; R] = kani::any();
+            let xw: [[bool; T]; R] = kani::any();
+            if ff_model::<P, R, T>(&fl, &xn, &xf, &xw, true) {
+                let mut a = 0;
+                while a < R {
+                    let mut t = 0;
+                    while t < T {
+                        assert!(!w[a][t] || xw[a][t], "FOLLOW: nothing extra");
+                        t += 1;
+                    }
+                    a += 1;
+                }
+            }
+            kani::cover!(w[1][0], "opt: a user token follows the first user rule");
+            kani::cover!(true, "end of harness reached");
+            std::mem::forget(fo);
+            std::mem::forget(g);
+        }
+    };
+}
+c17_fo!(c17_fo_a3_b0, 3, 3, 2, [1, 2], [3, 0], 6);
+c17_fo!(c17_fo_a21_b0, 3, 3, 3, [1, 1, 2], [2, 1, 0], 6);
+c17_fo!(c17_fo_a2_b2, 3, 3, 2, [1, 2], [2, 2], 6);
+c17_fo!(c17_fo_t2_a3_b0, 3, 2, 2, [1, 2], [3, 0], 6);
+// slot kinds concrete (which rule / which token symbolic)
+c17_fo!(c17_fok_a3_b0_rrt, 3, 3, 2, [1, 2], [3, 0], [*b"RRT", *b"---"], 5);
+c17_fo!(c17_fok_t2_a3_b0_rrt, 3, 2, 2, [1, 2], [3, 0], [*b"RRT", *b"---"], 5);
+c17_fo!(c17_fok_a3_b0_rrr, 3, 3, 2, [1, 2], [3, 0], [*b"RRR", *b"---"], 6);
+c17_fo!(c17_fok_a3_b0_rtr, 3, 3, 2, [1, 2], [3, 0], [*b"RTR", *b"---"], 6);
+c17_fo!(c17_fok_a3_b0_trr, 3, 3, 2, [1, 2], [3, 0], [*b"TRR", *b"---"], 6);
+c17_fo!(c17_fok_a21_b0_rr_t, 3, 3, 3, [1, 1, 2], [2, 1, 0], [*b"RR-", *b"T--", *b"---"], 6);
+c17_fo!(c17_fok_a21_b0_rt_r, 3, 3, 3, [1, 1, 2], [2, 1, 0], [*b"RT-", *b"R--", *b"---"], 6);
+c17_fo!(c17_fok_a2_b2_rr_rt, 3, 3, 2, [1, 2], [2, 2], [*b"RR-", *b"RT-"], 6);
+c17_fo!(c17_fok_a2_b2_rt_tr, 3, 3, 2, [1, 2], [2, 2], [*b"RT-", *b"TR-"], 6);
+
 c17_ff!(c17_first_a1_b1_c0, c17_follow_a1_b1_c0, 4, 3, 3, [1, 2, 3], [1, 1, 0], 6);
 c17_ff!(c17_first_t2_a1_b1_c0, c17_follow_t2_a1_b1_c0, 4, 2, 3, [1, 2, 3], [1, 1, 0], 6);
 c17_ff!(c17_first_a2_b2, c17_follow_a2_b2, 3, 3, 2, [1, 2], [2, 2], 6);
